@@ -1056,8 +1056,9 @@ class Context:
                 vm = VM(self.memory_limit, self.time_limit)
                 vm.globals = self._globals
                 if self._current_vm is not None:
-                    # Share the running evaluation's deadline
+                    # Share the running evaluation's deadline and host-stack budget
                     vm.start_time = self._current_vm.start_time
+                    vm.host_depth = self._current_vm.host_depth
                 result = vm.run(bytecode_module)
 
                 if isinstance(result, JSFunction):
@@ -1203,8 +1204,9 @@ class Context:
                 vm = VM(ctx.memory_limit, ctx.time_limit)
                 vm.globals = ctx._globals
                 if ctx._current_vm is not None:
-                    # Share the running evaluation's deadline
+                    # Share the running evaluation's deadline and host-stack budget
                     vm.start_time = ctx._current_vm.start_time
+                    vm.host_depth = ctx._current_vm.host_depth
                 return vm.run(bytecode_module)
             except JSError:
                 # Syntax errors, uncaught script errors and limit errors keep their class
@@ -1347,8 +1349,9 @@ class Context:
         vm = VM(memory_limit=self.memory_limit, time_limit=self.time_limit)
         vm.globals.update(self._globals)
         if self._current_vm is not None:
-            # Share the running evaluation's deadline
+            # Share the running evaluation's deadline and host-stack budget
             vm.start_time = self._current_vm.start_time
+            vm.host_depth = self._current_vm.host_depth
         else:
             vm.start_time = time.monotonic()
         result = vm._call_callback(func, args, UNDEFINED)
